@@ -1600,6 +1600,12 @@ impl<'a> Model<'a> {
                             )
                         } else {
                             match a[0][0] {
+                                // (a number that is not finite is stored as #NUM!)
+                                ArrayNode::Number(n) if !n.is_finite() => CalcResult::Error {
+                                    error: Error::NUM,
+                                    origin: cell_reference,
+                                    message: "".to_string(),
+                                },
                                 ArrayNode::Number(n) => CalcResult::Number(n),
                                 ArrayNode::Boolean(b) => CalcResult::Boolean(b),
                                 ArrayNode::String(ref s) => CalcResult::String(s.clone()),
